@@ -2,6 +2,7 @@ import MithrilModel.AggAttr
 import MithrilModel.AggChain
 import MithrilModel.AggVerify
 import MithrilModel.AggSe
+import MithrilModel.AggProgress
 /-!
 # C15 — An aggregator crash at any point leaves a verifiable store and resumable rounds
 
@@ -74,5 +75,163 @@ def C15_progress_goal : Prop :=
 /-- non-vacuity: the cut does change the state -/
 example : (step E1 s1 (.crash tp2 .certAfterInsert)).certs.length = 2 ∧
     (step E1 s1 (.crash tp2 .certAfterInsert)).oms.all (fun o => !o.certified) = true := by decide
+
+/-! ## Progress (T2)
+
+`C15_progress_goal` as written above cannot be proved: it quantifies over every environment `E` (also one
+whose quorum test never passes), over histories in which no signer is registered for the next epoch or
+an epoch went by without a certificate, and its continuation may not register anybody. What holds is
+stated below; the definitions (`Agg.cont`, `Agg.Productive`, `Agg.target`, `Agg.NextOk`) and the proofs
+are in `AggProgress`. -/
+
+/-- the goal is false as stated: with a quorum test that never passes no tick and no signature ever
+inserts a certificate (nothing here depends on the crash) -/
+theorem C15_progress_goal_overquantified : ¬ C15_progress_goal := by
+  intro h
+  let E0 : Env := { entityEpoch := fun _ => 0, entityDisc := fun _ => 0, quorum := fun _ _ => false, timeout := fun _ => none }
+  obtain ⟨cont, h1, h2⟩ := h E0 0 0 [] { epoch := 0, now := 0, avail := [], newmsg := 0 } .certBeforeInsert trivial
+  rw [no_quorum_run E0 (fun _ _ => rfl) cont _ h1] at h2
+  exact Nat.lt_irrefl _ h2
+
+/-- **Progress after a crash.** For every history with cut ticks (`RunWfC`), every crash point `p` and
+every (well-formed) tick `tp` it cuts: let `s` be the state after `crash tp p; restart`. For every input
+`r` of a round (time point, submitting parties, their lottery indices) that is `Productive` for `s`
+— decidable hypotheses: the time point does not go back and offers entities of its epoch, one of which
+is not flagged certified or expired; the genesis certificate is older than the epoch; the latest
+certificate is of the epoch or the one before (no gap); signers are registered under the keys
+`epoch - 1` and `epoch`; the submitting parties are among them and their indices cover `k` distinct
+ones — and every environment whose quorum test accepts `k` distinct indices, the computable
+continuation `Agg.cont E s r` (ticks until SIGNING, the parties' valid signatures, one tick) consists
+of ticks and signature submissions only, and running it appends exactly one certificate, for the
+entity `target s r.tp`: the interrupted entity if the time point still offers it first and it is still
+open (`C15_progress_resumes`), else the next offered entity that can be signed. The runtime ends READY
+and is never BLOCKED on the way. -/
+theorem C15_progress_partial (E : Env) (k n g : Nat) (evs : List Event) (tp : Tp) (p : CrashPoint) (r : Round)
+    (hw : RunWfC E (init n g) evs) (hwc : Wf E (evs.foldl (step E) (init n g)) tp) (hq : QuorumByIndices E k) :
+    let s := step E (step E (evs.foldl (step E) (init n g)) (.crash tp p)) .restart
+    Productive E k s r →
+    (∀ ev ∈ Agg.cont E s r, ∃ tp', ev = .tick tp' ∨ ∃ e g', ev = .signature e g') ∧
+    ((Agg.cont E s r).foldl (step E) s).certs.length > s.certs.length ∧
+    ∃ e c, target s r.tp = some e ∧ e ∈ r.tp.avail ∧
+      ((Agg.cont E s r).foldl (step E) s).certs = s.certs ++ [c] ∧ c.entity = some e ∧ c.epoch = r.tp.epoch ∧
+      ((Agg.cont E s r).foldl (step E) s).rt = .ready r.tp.epoch ∧ NB E s (Agg.cont E s r) ∧
+      RunWfC E (init n g) (evs ++ [.crash tp p, .restart] ++ Agg.cont E s r) := by
+  intro s hp
+  have hi0 := run_sinv E evs (init n g) (sinv_init E n g) hw
+  obtain ⟨hi, hrt, _⟩ := post_crash (p := p) hi0 hwc
+  have hres : s.rt.resumable = true := by
+    show (step E (step E (evs.foldl (step E) (init n g)) (.crash tp p)) .restart).rt.resumable = true
+    rw [hrt]; rfl
+  obtain ⟨e, c, ht, g1, g2, g3, _, g5, _, _, _, g9, g10, g11, _⟩ := productive_round hq hi hres hp
+  refine ⟨?_, ?_, e, c, ht, List.mem_of_find?_eq_some ht, g1, g2, g3, g5, g9, ?_⟩
+  · intro ev hev
+    rcases g11 ev hev with rfl | ⟨g', rfl⟩
+    · exact ⟨r.tp, Or.inl rfl⟩
+    · exact ⟨r.tp, Or.inr ⟨e, g', rfl⟩⟩
+  · rw [g1, List.length_append]; exact Nat.lt_succ_self _
+  · rw [RunWfC_append, RunWfC_append]
+    refine ⟨⟨hw, hwc, trivial, trivial⟩, ?_⟩
+    simp only [List.foldl_append, List.foldl_cons, List.foldl_nil]
+    exact g10
+
+/-- for histories from `init n g` the genesis hypothesis of `Productive` is `g < epoch` -/
+theorem C15_genesis_of_run (E : Env) (n g : Nat) (evs : List Event) (tp' : Tp) (hg : g < tp'.epoch) :
+    preNeeded (evs.foldl (step E) (init n g)) tp' = true := by
+  unfold preNeeded
+  rw [run_genesis E g evs _ (genesis_init n g)]
+  simpa using hg
+
+/-- the interrupted round is the one that is resumed when the time point offers its entity first and its
+open message is still open; an entity flagged certified is never chosen again -/
+theorem C15_progress_resumes (s : St) (tp : Tp) (e0 : Nat) (rest : List Nat) (hav : tp.avail = e0 :: rest) :
+    (openable tp.now s.oms e0 = true → target s tp = some e0) ∧
+    (∀ e o, target s tp = some e → findOm e s.oms = some o → o.certified = false) :=
+  ⟨target_head hav, fun _ _ h ho => (target_not_certified h ho).1⟩
+
+/-- **Progress for ever, never blocked.** After `crash tp p; restart`: a first productive round, then any
+number of rounds each of which has its inputs in the state it meets (`PlanOk` / `NextOk`: the epoch of a
+round is the epoch of the round before or the next one — the model's gap rule: no epoch without a
+certificate —, signers registered under the keys `epoch - 1` and `epoch`, a signable entity offered, the
+parties' indices reaching `k`). Every round appends one certificate, the stored ones stay, the runtime
+is never `blocked` in any state on the way, and the whole history is again a well-formed run (so every
+theorem above applies to it). -/
+theorem C15_progress_forever (E : Env) (k n g : Nat) (evs : List Event) (tp : Tp) (p : CrashPoint)
+    (r : Round) (rest : List Round)
+    (hw : RunWfC E (init n g) evs) (hwc : Wf E (evs.foldl (step E) (init n g)) tp) (hq : QuorumByIndices E k) :
+    let s := step E (step E (evs.foldl (step E) (init n g)) (.crash tp p)) .restart
+    Productive E k s r → PlanOk E k ((Agg.cont E s r).foldl (step E) s) r.tp.epoch rest →
+    ((runPlan E s (r :: rest)).foldl (step E) s).certs.length = s.certs.length + (rest.length + 1) ∧
+    s.certs <+: ((runPlan E s (r :: rest)).foldl (step E) s).certs ∧
+    NB E s (runPlan E s (r :: rest)) ∧
+    RunWfC E (init n g) (evs ++ [.crash tp p, .restart] ++ runPlan E s (r :: rest)) := by
+  intro s hp hrest
+  have hi0 := run_sinv E evs (init n g) (sinv_init E n g) hw
+  obtain ⟨hi, hrt, _⟩ := post_crash (p := p) hi0 hwc
+  have hres : s.rt.resumable = true := by
+    show (step E (step E (evs.foldl (step E) (init n g)) (.crash tp p)) .restart).rt.resumable = true
+    rw [hrt]; rfl
+  obtain ⟨a1, a2, a3, a4, _, _⟩ := progress_forever hq hi hres r rest hp hrest
+  refine ⟨a1, a2, a3, ?_⟩
+  rw [RunWfC_append, RunWfC_append]
+  refine ⟨⟨hw, hwc, trivial, trivial⟩, ?_⟩
+  simp only [List.foldl_append, List.foldl_cons, List.foldl_nil]
+  exact a4
+
+/-- the same with every hypothesis of the later rounds on the post-crash state and the inputs only:
+rounds over entities that have no open message yet (`FreshPlan`) -/
+theorem C15_progress_forever_fresh (E : Env) (k n g : Nat) (evs : List Event) (tp : Tp) (p : CrashPoint)
+    (r : Round) (rest : List Round) (e0 : Nat)
+    (hw : RunWfC E (init n g) evs) (hwc : Wf E (evs.foldl (step E) (init n g)) tp) (hq : QuorumByIndices E k) :
+    let s := step E (step E (evs.foldl (step E) (init n g)) (.crash tp p)) .restart
+    Productive E k s r → target s r.tp = some e0 → FreshPlan E k s r.tp.epoch [e0] rest →
+    ((runPlan E s (r :: rest)).foldl (step E) s).certs.length = s.certs.length + (rest.length + 1) ∧
+    NB E s (runPlan E s (r :: rest)) := by
+  intro s hp ht hplan
+  have hi0 := run_sinv E evs (init n g) (sinv_init E n g) hw
+  obtain ⟨hi, hrt, _⟩ := post_crash (p := p) hi0 hwc
+  have hres : s.rt.resumable = true := by
+    show (step E (step E (evs.foldl (step E) (init n g)) (.crash tp p)) .restart).rt.resumable = true
+    rw [hrt]; rfl
+  obtain ⟨a1, _, a3, _, _, _⟩ := progress_forever_fresh hq hi hres r rest hp e0 ht hplan
+  exact ⟨a1, a3⟩
+
+/-- non-vacuity: the history `Agg.hist` (genesis, epoch 2 initialised, registrations for epoch 3, a
+signature reaching the quorum for entity 20), a tick cut at each of the nine crash points, the restart;
+the hypotheses hold, and the continuation inserts one certificate — for the interrupted entity 20
+when the stop came before the open-message update, for the next entity 21 otherwise -/
+example : allPoints.all (fun p =>
+    let s := postCrash p
+    let s' := (Agg.cont Ex s (rdx 2 [20, 21])).foldl (step Ex) s
+    decide (Productive Ex 2 s (rdx 2 [20, 21])) && decide (s'.certs.length = s.certs.length + 1) &&
+    decide ((s'.certs.getLast?.map (·.entity)) = some (target s (tpx 2 [20, 21]))) &&
+    decide ((Agg.cont Ex s (rdx 2 [20, 21])).length = 5)) = true ∧
+    allPoints.map (fun p => target (postCrash p) (tpx 2 [20, 21])) =
+      [some 20, some 20, some 21, some 21, some 21, some 21, some 21, some 21, some 21] := by
+  decide +kernel
+
+/-- non-vacuity of the iteration: after each of the nine cuts, four rounds over two epochs (entities 20/21,
+22, 30, 31) are a valid plan and insert four certificates -/
+example : allPoints.all (fun p =>
+    let s := postCrash p
+    let s1 := (Agg.cont Ex s (rdx 2 [20, 21])).foldl (step Ex) s
+    let rest := [rdx 2 [20, 21, 22], rdx 3 [30], rdx 3 [31]]
+    decide (PlanOk Ex 2 s1 2 rest) &&
+    decide (((runPlan Ex s (rdx 2 [20, 21] :: rest)).foldl (step Ex) s).certs.length = s.certs.length + 4)) = true := by
+  decide +kernel
+
+/-- NOTE (why the continuation has to contain submissions; not a clause of C15): both parties' signatures
+for the coming open message of entity 20 sit in the buffer, the tick that creates the open message is cut
+before the hand-over (`hoBefore`), the process restarts. Ticks alone then never certify the round — the
+state machine sits in SIGNING for ever, the two signatures stay in the buffer unused — whereas the same
+ticks without the cut certify it, and so does the productive continuation, in which the parties submit
+again. -/
+theorem C15_buffered_unused_note :
+    (∀ n, ((List.replicate n (Event.tick (tpx 2 [20]))).foldl (step Ex) stuck) = stuck) ∧
+    (stuck.rt = .signing 2 20 ∧ stuck.certs.length = 1 ∧ stuck.sigs = [] ∧ stuck.buf.length = 2) ∧
+    (([Event.tick (tpx 2 [20]), .restart, .tick (tpx 2 [20]), .tick (tpx 2 [20]), .tick (tpx 2 [20])].foldl (step Ex)
+      (histBuf.foldl (step Ex) (init 2 1))).certs.map (·.entity)) = [none, some 20] ∧
+    (Productive Ex 2 stuck0 (rdx 2 [20]) ∧
+      (((Agg.cont Ex stuck0 (rdx 2 [20])).foldl (step Ex) stuck0).certs.map (·.entity)) = [none, some 20]) :=
+  ⟨stuck_for_ever, stuck_facts, not_stuck_without_crash, stuck_resolved_by_resubmission⟩
 
 end C15
